@@ -36,6 +36,9 @@ pub fn run(reg: &dyn Registry, ctx: &Ctx) -> Outcome {
     ctx.assume("states are rebuilt by replaying their history on a fresh generator, so the check never relies on Clone to fork");
     let mut all_types: Vec<&'static dyn GenType> = reg.types();
     all_types.extend(reg.core_types());
+    // ... and the 4-aligned cores once more at an address that is 4 mod 8 (a comparison or copy that goes
+    // through wider words treats head and tail differently there)
+    all_types.extend(reg.core_types_placed_at_4());
     let results: Vec<()> = all_types
         .par_iter()
         .map(|ty| {
